@@ -520,7 +520,15 @@ def gen_logical(rng, depth):
 
 
 def canon_ast(x):
-    return json.loads(json.dumps(x))
+    def big(v):
+        if isinstance(v, bool) or not isinstance(v, (int, list, tuple, dict)):
+            return v
+        if isinstance(v, int):
+            return v if -SX.BIG < v < SX.BIG else "bigint:" + SX.big_str(v)
+        if isinstance(v, dict):
+            return {k: big(y) for k, y in v.items()}
+        return [big(y) for y in v]
+    return json.loads(json.dumps(big(x)))
 
 
 # ---- documented extensions (C13) ------------------------------------------------------
